@@ -20,7 +20,7 @@ def run(tier, t0):
         capguard.run(f, rep, cfg, scope="encoding")
     rep.floor("byteorder_pairs", 100)
     rep.floor("error_word_sources", 6)
-    rep.floor("precision_decoders", 2)
+    rep.floor("precision_decoders", 1)
     return finish(rep, tier, t0,
                   explanation="byte-order naming rule over all call sites, label-flow of decoder error words to "
                               "decisions, and length-vs-capacity guards, in two feature configurations; positional "
